@@ -84,11 +84,21 @@ def searchsorted_sites(repo: Repo) -> List[Tuple[Func, ast.AST, ast.Call, str, s
     for f in repo.all_funcs():
         if not f.is_njit:
             continue
+        seen = set()
+        for n in walk_no_nested(f.node):
+            if isinstance(n, ast.Subscript):
+                # the position used in place: A[np.searchsorted(B, k)]
+                c = n.slice
+                if isinstance(c, ast.Call) and repo.canonical(f.module, c.func) == "numpy.searchsorted" and len(c.args) >= 2 and id(c) not in seen:
+                    seen.add(id(c))
+                    out.append((f, c, c, norm(c.args[0]), norm(c.args[1])))
+                    _CLAMPED[id(c)] = None
         for n in walk_no_nested(f.node):
             if isinstance(n, ast.Assign):
                 # the call itself, or the call inside a clamp such as min(np.searchsorted(A, k), len(A) - 1)
                 for c in ast.walk(n.value):
-                    if isinstance(c, ast.Call) and repo.canonical(f.module, c.func) == "numpy.searchsorted" and len(c.args) >= 2:
+                    if isinstance(c, ast.Call) and repo.canonical(f.module, c.func) == "numpy.searchsorted" and len(c.args) >= 2 and id(c) not in seen:
+                        seen.add(id(c))
                         out.append((f, n.targets[0], c, norm(c.args[0]), norm(c.args[1])))
                         _CLAMPED[id(c)] = n.value if c is not n.value else None
     return out
@@ -205,7 +215,38 @@ def r10_2(repo: Repo, rule: str = "R10.2") -> RuleResult:
                        % (pos, arr, short(call.args[1], 40), base, pos, arr, arr), u.lineno)
         if checked == 0:
             rr.ok(f, "searchsorted(%s, ...)" % arr, "position not used to index the searched array", call.lineno, nontrivial=False)
+    # the two kernels this rule was confirmed on must still be accounted for: either their searchsorted site was judged
+    # above, or the kernel visibly walks its stored entries by position (no lookup, so nothing to guard)
+    have = {(i.file, i.function) for i in rr.instances}
+    for file, fn, ind in SEARCH_KERNELS:
+        if (file, fn) in have:
+            continue
+        f = repo.func(file, fn)
+        walk = _stored_entry_walk(f, ind)
+        if walk is None:
+            raise AnalysisError("%s: %s::%s neither looks positions up with np.searchsorted nor walks its stored entries by position "
+                                "(unrecognised shape)" % (rule, file, fn))
+        rr.ok(f, "stored-entry walk `%s`" % short(walk, 50), "every position comes from range(len(%s)): no looked-up position to guard" % ind, walk.lineno)
     return rr
+
+
+# (file, kernel, index-array parameter) of the kernels that locate a key in a sorted index array
+SEARCH_KERNELS = [
+    ("vectorizers/coo_utils.py", "em_update_matrix", "prior_indices"),
+    ("vectorizers/transformers/info_weight.py", "column_kl_divergence_exact_prior", "count_indices"),
+]
+
+
+def _stored_entry_walk(f: Func, ind: str) -> Optional[ast.For]:
+    if ind not in f.params:
+        return None
+    for n in walk_no_nested(f.node):
+        if isinstance(n, ast.For) and isinstance(n.iter, ast.Call) and norm(n.iter.func) == "range" and len(n.iter.args) == 1 \
+                and norm(n.iter.args[0]) in _len_forms(ind) and isinstance(n.target, ast.Name):
+            v = n.target.id
+            if any(isinstance(x, ast.Subscript) and norm(x.value) == ind and norm(x.slice) == v for x in ast.walk(n)):
+                return n
+    return None
 
 
 def _is_range_guard(v: ast.AST, pos: str, arr: str) -> bool:
@@ -223,6 +264,8 @@ def _membership_guard(v: ast.AST, f: Func, arr: str, key: str) -> Optional[str]:
     if isinstance(v, ast.Compare) and len(v.ops) == 1 and isinstance(v.ops[0], ast.In) and norm(v.left) == key:
         s = norm(v.comparators[0])
         sd = single_defs(f)
+        if s == "set(%s)" % arr:
+            return "membership `%s in set(%s)` (requires sorted %s: established by the caller, see R17.1)" % (key, arr, arr)
         if s in sd and norm(sd[s]) == "set(%s)" % arr:
             return "membership `%s in %s` with %s = set(%s) (requires sorted %s: established by the caller, see R17.1)" % (key, s, s, arr, arr)
     return None
